@@ -1,3 +1,5 @@
+\* One scope, indexes <= 3, terms <= 2, batches of 1, one conf-change kind, two snapshot payloads.
+\* 4,522 distinct states, 277,655 generated; about 20 s with 4 workers on an idle machine (361,895 generated / 28 s with batches <= 2).
 SPECIFICATION Spec
 CONSTANTS
   Scopes = {"s1"}
@@ -7,7 +9,7 @@ CONSTANTS
   CCs = {0, 2}
   VoterSets = {{1}}
   Datas = {1, 2}
-  MaxBatch = 2
+  MaxBatch = 1
   StaleSuffix = FALSE
 VIEW View
 INVARIANTS TypeOK C14_Equivalent C14_NoEntryBelowCompaction C14_NoPhantomTerm C14_CacheIsReloadable
